@@ -184,7 +184,14 @@ fn extract_bound_from_tracking(tracking: Tracking) -> (i64, ChronyClockStatus) {
     // Compute the time it would take for chronyd 8-wide register to be completely empty (e.g. the
     // last 8 NTP requests timed out)
     let polling_period = f64::from(tracking.last_update_interval);
-    let empty_register_timeout = Duration::from_secs((polling_period * 8.0) as u64);
+    // Keep the sub-second part of the timeout: truncating it to whole seconds would declare a
+    // reference time stale up to a second early, and always stale for polling periods below 125ms.
+    let empty_register_timeout = match Duration::try_from_secs_f64(polling_period * 8.0) {
+        Ok(timeout) => timeout,
+        // Not representable as a Duration: too large, or negative / NaN.
+        Err(_) if polling_period > 0.0 => Duration::MAX,
+        Err(_) => Duration::ZERO,
+    };
 
     // Get the status reported by chrony and tracking data.
     // Chronyd tends to report a synchronized status for a very looooong time after it has failed
